@@ -29,6 +29,32 @@ class NetInterp:
             raise dtable.Undecidable("%s: unknown variable %s" % (fn.nloc(n), n["ref"]["name"]))
         if k in ("CXXConstructExpr",) and len(kids(n)) == 1:
             return self.value(kids(n)[0], env, fn)      # copy of iterator / cswap
+        if k == "ParenExpr":
+            return self.value(kids(n)[0], env, fn)
+        if const_int(n) is not None:
+            return ("int", const_int(n))
+        if k == "UnaryOperator" and n.get("op") == "!":
+            v = self.value(kids(n)[0], env, fn)
+            if v[0] in ("int", "bool"):
+                return ("bool", not v[1])
+        if k == "BinaryOperator" and n.get("op") in ("&&", "||"):
+            a = self.value(kids(n)[0], env, fn)
+            if a[0] in ("int", "bool"):
+                if bool(a[1]) == (n["op"] == "||"):
+                    return ("bool", n["op"] == "||")
+                b = self.value(kids(n)[1], env, fn)
+                if b[0] in ("int", "bool"):
+                    return ("bool", bool(b[1]))
+        bo = match.binop(n, ("-", "==", "!=", "<", "<=", ">", ">="))
+        if bo and const_int(bo[2]) is None or (bo and bo[0] != "-"):
+            try:
+                a, b = self.value(bo[1], env, fn), self.value(bo[2], env, fn)
+            except dtable.Undecidable:
+                a = b = None
+            if a is not None and a[0] == b[0] and a[0] in ("it", "int") and a[1] is not None and b[1] is not None:
+                if bo[0] == "-":
+                    return ("int", a[1] - b[1])
+                return ("bool", {"==": a[1] == b[1], "!=": a[1] != b[1], "<": a[1] < b[1], "<=": a[1] <= b[1], ">": a[1] > b[1], ">=": a[1] >= b[1]}[bo[0]])
         if k == "BinaryOperator" and n["op"] in ("+", "-"):
             a, b = kids(n)
             ca, cb = const_int(a), const_int(b)
@@ -75,6 +101,38 @@ class NetInterp:
             return "break"
         if k == "ReturnStmt" and not kids(s):
             return "return"
+        if k == "IfStmt":
+            c = self.value(kids(s)[0], env, fn)
+            if c[0] not in ("bool", "int"):
+                raise dtable.Undecidable("%s: condition not understood in a network function" % fn.nloc(s))
+            br = kids(s)[1] if c[1] else (kids(s)[2] if len(kids(s)) > 2 else None)
+            return self.run_stmt(br, env, fn, out) if br is not None else None
+        if k == "SwitchStmt":
+            c = self.value(kids(s)[0], env, fn)
+            if c[0] != "int":
+                raise dtable.Undecidable("%s: switch on something that is not the size" % fn.nloc(s))
+            flat = flatten_switch(kids(s)[1])
+            pos = [i for i, e in enumerate(flat) if e[0] == "case" and e[1] == c[1]]
+            if not pos:
+                pos = [i for i, e in enumerate(flat) if e[0] == "default"]
+                self.defaulted = True
+            if not pos:
+                return None
+            for e in flat[pos[0]:]:
+                if e[0] != "stmt":
+                    continue
+                r = self.run_stmt(e[1], env, fn, out)
+                if r == "break":
+                    return None
+                if r:
+                    return r
+            return None
+        if k == "AttributedStmt":
+            for c in kids(s):
+                r = self.run_stmt(c, env, fn, out)
+                if r:
+                    return r
+            return None
         if k == "DeclStmt":
             for v in kids(s):
                 ty = v.get("ty", "")
@@ -199,48 +257,22 @@ def flatten_switch(body):
 
 
 def check_dispatcher(ck, tu, fam, fn, nets_seen):
+    """the dispatcher is interpreted for every size 0..16 (end = begin + n): whatever its control structure, the
+    compare-exchanges it reaches must sort exactly slots 0..n-1"""
     ns = NS + fam
     interp = NetInterp(tu, ns)
-    body = fn.body
-    sw = [s for s in kids(body) if s["k"] == "SwitchStmt"]
-    ck.require(len(sw) == 1, "%s: expected one switch in dispatcher" % fn.loc)
-    sw = sw[0]
-    cond = strip_casts(kids(sw)[0])
     p = fn.params
-    okc = False
-    if (cond["k"] == "BinaryOperator" or "callee" in cond) and cond.get("op") == "-" and len(kids(cond)) == 2:
-        a, b = kids(cond)
-        if ir.ref_of(a) == p[1]["did"] and ir.ref_of(b) == p[0]["did"]:
-            okc = True
-    if not okc:
-        ck.violation("DISPATCH-SIZE", fn.qname, "switch-cond",
-                     "dispatcher does not switch on (end - begin): %s" % dtable.describe(cond), fn.nloc(cond))
-        return
-    env0 = {p[0]["did"]: ("it", 0), p[1]["did"]: ("it", None)}
-    for s in kids(body):
-        if s["k"] == "DeclStmt":
-            interp.run_stmt(s, env0, fn, [])
-    flat = flatten_switch(kids(sw)[1])
     for n in range(0, 17):
-        pos = [i for i, e in enumerate(flat) if e[0] == "case" and e[1] == n]
         label = "case=%d" % n
-        if not pos:
-            ck.violation("DISPATCH-SIZE", fn.qname, label,
-                         "no case for size %d (falls to default)" % n, fn.nloc(sw))
-            continue
+        env = {p[0]["did"]: ("it", 0), p[1]["did"]: ("it", n)}
         comps = []
-        env = dict(env0)
-        for e in flat[pos[0]:]:
-            if e[0] != "stmt":
-                continue
-            r = interp.run_stmt(e[1], env, fn, comps)
-            if r in ("break", "return"):
-                break
-            if r == "noreturn":
-                comps = None
-                break
-        if comps is None:
-            ck.violation("DISPATCH-SIZE", fn.qname, label, "size %d reaches a no-return call" % n, fn.nloc(sw))
+        interp.defaulted = False
+        r = interp.run_stmt(fn.body, env, fn, comps)
+        if r == "noreturn":
+            ck.violation("DISPATCH-SIZE", fn.qname, label, "size %d reaches a no-return call" % n, fn.loc)
+            continue
+        if interp.defaulted and not comps and n >= 2:
+            ck.violation("DISPATCH-SIZE", fn.qname, label, "no case for size %d (falls to default)" % n, fn.loc)
             continue
         check_network(ck, "DISPATCH-SIZE", fn, label, n, comps)
     nets_seen.update(interp.fn_visited)
@@ -315,6 +347,8 @@ def check_cswap(ck, tu):
                         if kids(d) and kids(d)[0] is not None:
                             env[d["did"]] = ev(kids(d)[0])
                 elif k == "ReturnStmt":
+                    raise _Ret()
+                elif k == "NullStmt":
                     pass
                 else:
                     e = strip_casts(s_)
@@ -330,7 +364,10 @@ def check_cswap(ck, tu):
                         return
                     raise dtable.Undecidable("%s: statement not understood in the compare-exchange functor: %s" % (fn.nloc(e), dtable.describe(e)))
             try:
-                stmt(fn.body)
+                try:
+                    stmt(fn.body)
+                except _Ret:
+                    pass
             except Misuse as m:
                 bad = (v, str(m))
                 break
@@ -348,6 +385,10 @@ def check_cswap(ck, tu):
                          "with cmp(left,right)=%s and cmp(right,left)=%s: %s" % (v[("L", "R")], v[("R", "L")], msg), fn.loc)
         else:
             ck.ok("CSWAP-TABLE", fn.full, "3 consistent outcomes of (cmp(l,r), cmp(r,l)): the slots hold a permutation of the two elements, in order")
+
+
+class _Ret(Exception):
+    pass
 
 
 class Misuse(Exception):
